@@ -892,3 +892,10 @@ class MetaMonitor:
                 key = f"{what.replace(' ', '-')}-not-exact" + ("" if valid else "-non-utf8")
                 v.append(("C02", key, f"{what} not delivered exactly on `{op[:140]}`: {line}"))
         return v
+
+
+class IdentityMonitor:
+    def feed(self, op, line):
+        if op.startswith("id.case") and line != "ok":
+            return [("C17", "identity-" + re.sub(r"[^A-Za-z]+", "-", line.split("(")[0])[:60], f"`{op}`: {line}")]
+        return []
